@@ -125,6 +125,22 @@ def check_value(x, rec, utils, word_dtypes=()):
                 rec.violation("mpf-roundtrip:low-precision-context", wit(x, back=y, context_precision=lp))
         except Exception as e:
             rec.violation("mpf-exception:low-precision-context", wit(x, context_precision=lp, exc=f"{type(e).__name__}: {e}"[:200]))
+    # ---- the dispatching number2float: a float converted to its own type is itself (bit for bit, -0.0, inf and NaN included); to a wider type its value
+    for tdt in (numpy.float16, numpy.float32, numpy.float64):
+        if numpy.finfo(tdt).bits < numpy.finfo(dt).bits:
+            continue  # narrowing rounds: C15's business
+        rec.count("number2float:judged")
+        try:
+            y = utils.number2float(tdt, x)
+            ok = type(y) is tdt and (same_bits(tdt(x), y) if not isnan else bool(numpy.isnan(y)))
+            if not ok:
+                rec.violation("number2float-identity", wit(x, target=tdt.__name__, back=y))
+            if dt is numpy.float64 and tdt is numpy.float64 and fin:
+                y2 = utils.number2float(tdt, float(x))
+                if not same_bits(x, y2):
+                    rec.violation("number2float-identity", wit(x, target="float64 from Python float", back=y2))
+        except Exception as e:
+            rec.violation("number2float-exception", wit(x, target=tdt.__name__, exc=f"{type(e).__name__}: {e}"[:200]))
     # ---- fraction (finite only: a Fraction cannot express inf)
     if fin:
         try:
@@ -158,6 +174,19 @@ def check_value(x, rec, utils, word_dtypes=()):
                     m2 = utils.expansion2mpf(mp, ex_)
                     if mpf_value(m2) != q:
                         rec.violation("expansion-roundtrip", wit(x, word=numpy.dtype(wdt).name, expansion=[v for v in ex_]))
+                    # expansions as the arithmetic produces them: zero words anywhere (functional variants pad, cancellation leaves interior zeros)
+                    if len(ex_) >= 1 and x != 0:
+                        nzw = [w_ for w_ in ex_ if w_ != 0]
+                        for padded in ([wdt(0)] + nzw, nzw[:1] + [wdt(0)] + nzw[1:] + [wdt(0)], nzw[:1] + [wdt(0), wdt(-0.0)] + nzw[1:]):
+                            rec.count("expansion2mpf:zero-words")
+                            try:
+                                m2b = utils.expansion2mpf(mp, list(padded))
+                                if mpf_value(m2b) != q:
+                                    rec.violation("expansion2mpf-with-zero-words", wit(x, word=numpy.dtype(wdt).name, expansion=list(padded)))
+                                    break
+                            except Exception as e:
+                                rec.violation("expansion2mpf-exception", wit(x, word=numpy.dtype(wdt).name, expansion=list(padded), exc=f"{type(e).__name__}: {e}"[:200]))
+                                break
                 # the other routes into an expansion: from the float itself (NumPy scalar and, for float64 values, the equal Python float), from its
                 # exact fraction, and through the dispatching number2expansion; every word has the word dtype and the words sum to the value exactly
                 routes = [("float2expansion", lambda: utils.float2expansion(wdt, x)), ("number2expansion:float", lambda: utils.number2expansion(wdt, x)),
